@@ -15,6 +15,7 @@ import PgProofs.NotifyOrder
 import PgProofs.NotifyEdit
 import PgProofs.NotifyBatch
 import PgProofs.NotifyRead
+import PgProofs.NotifyReentrant
 namespace Pg.C09
 open T
 open Pg.C08 (Atom Key NotifyKind)
@@ -89,10 +90,11 @@ theorem C09_contract_finish (r' : T) (hwf : WF r') (ups : List (Update × Path))
 /-- Instance: a batched `rebind` on a dict / object receiver. -/
 theorem C09_contract_rebind (root r' : T) (recv : Path) (pairs : List (Path × T)) (ups : List (Update × Path))
     (hrecv : ∀ m items, getAt root recv ≠ some (.node m .list items))
+    (hnm : pairs.any (fun pv => isMissingLeaf pv.2) = false)
     (hw : writeAll root recv pairs [] = some (r', ups)) (hwf : WF r') :
     (step root recv true (.rebind pairs)).events.Perm (specNotifs r' ups) := by
   have hfin := C09_contract_finish r' hwf ups
-  simp only [step]
+  simp only [step, hnm, Bool.false_eq_true, if_false]
   cases hg : getAt root recv with
   | none => simpa only [hw] using hfin
   | some t =>
@@ -419,9 +421,7 @@ def OpFresh : Op → Prop
 
 private theorem finish_fresh (r' : T) (ups : List (Update × Path)) (n : Bool) (h : Fresh r') :
     Fresh (finish r' ups n).tree := by
-  unfold finish; split
-  · exact resetAll_fresh ups r' h
-  · exact h
+  exact finish_fresh' r' ups n h
 
 /-- FRESHNESS, full strength: after any modelled call — accessor write, `del`, `append`, batched
 `rebind` with any number of pairs, `update`, `clear`, `reverse`, `sort`, `popitem`, `insert`, `pop` / `remove`,
@@ -479,6 +479,17 @@ theorem C09_fresh (n : Bool) (root : T) (recv : Path) (op : Op) (hf : Fresh root
     · exact hf
   | rebind pairs =>
     simp only [step]
+    split
+    · -- some pairs delete
+      split
+      · cases hw : writeAllM root recv pairs.reverse [] with
+        | none => exact hf
+        | some r =>
+          exact finish_fresh _ _ _ (writeAllM_fresh recv pairs.reverse root [] r.1 r.2 hf
+            (fun pv h => hv pv (by simpa using h)) (by simp [hw]))
+      · cases hw : writeAllM root recv pairs [] with
+        | none => exact hf
+        | some r => exact finish_fresh _ _ _ (writeAllM_fresh recv pairs root [] r.1 r.2 hf hv (by simp [hw]))
     split
     · cases hw : writeAll root recv pairs.reverse [] with
       | none => exact hf
@@ -588,6 +599,75 @@ theorem C09_read_after_history (hs : List HStep) (root : T) (p : Path) (f : Fact
     (readAt (runH root hs) p f).2 = (getAt (runH root hs) p).map (fun n =>
         (if f.nd then derive n else [], if f.miss then deriveMiss n else [])) :=
   (readAt_spec _ p f (C09_fresh_history hs root hf hv)).1
+
+/-- `rebind(path -> MISSING_VALUE)` on a List item leaves a placeholder that the list's change handler
+drops: after a NOTIFIED call every List on the way to an updated node (the handler of each of them
+runs) holds no placeholder; after a silent call nobody's handler runs — `C09_silent_off`: no event,
+not even an empty one — and the placeholder stays (known finding C02-F03). -/
+theorem C09_placeholders_dropped (paths : List Path) (hne : paths.isEmpty = false) (m : Meta)
+    (items : List (Key × T)) :
+    ∃ m' items', purgeSet paths (.node m .list items) = .node m' .list items' ∧
+      ∀ kv ∈ items', isMissingLeaf kv.2 = false :=
+  purgeSet_list_clean paths hne m items
+
+/-! ## Handlers that mutate during notification (depth-bounded re-entrancy)
+
+`stepR react fuel root recv op` is one notified call whose receivers' handlers may each issue a
+call of their own (`react id`), those calls' receivers again, ... to at most `fuel` levels; it
+returns the tree afterwards and the log of all deliveries in the order in which handlers ran. -/
+
+/-- Without nesting left the call is the plain notified call. -/
+theorem C09_reentrant_depth0 (react : React) (t : T) (recv : Path) (op : Op) :
+    stepR react 0 t recv op = ((step t recv true op).tree, (step t recv true op).events) := rfl
+
+/-- NESTED DISPATCH, unfolded at the first receiver: the log is the first event of the call,
+then the COMPLETE log of the call which that receiver's handler issues (run on the tree as the outer
+call left it, with one level of nesting less), then the deliveries to the remaining receivers — the
+outer dispatch goes on only after the nested call has been dispatched completely. -/
+theorem C09_reentrant_unfold (react : React) (f : Nat) (t : T) (recv : Path) (op : Op) (e : Event) (rest : List Event)
+    (he : (step t recv true op).events = e :: rest) :
+    (stepR react (f + 1) t recv op).2 =
+      e :: (nestedCall react f (step t recv true op).tree e.recv).2 ++
+        (dispatchWith (nestedCall react f) (nestedCall react f (step t recv true op).tree e.recv).1 rest).2 := by
+  rw [stepR_succ, he]; rfl
+
+/-- NOTHING IS SUPPRESSED: at every level the events of a call — the outer one or one issued by a
+handler, `C09_contract`: one for every subscribing ancestor-or-self of what that call wrote, hence
+also for the node whose handler issued it when it is one of them — all appear in the log, in their
+own (children before parents, `C09_order`) order. -/
+theorem C09_reentrant_complete (react : React) (f : Nat) (t : T) (recv : Path) (op : Op) :
+    (step t recv true op).events.Sublist (stepR react f t recv op).2 :=
+  stepR_outer_sublist react f t recv op
+
+/-- … in particular for the nested call of the first receiver: all of its own events are in the
+log of the outer call. -/
+theorem C09_reentrant_nested_complete (react : React) (f : Nat) (t : T) (recv : Path) (op : Op)
+    (e : Event) (rest : List Event) (rp : Path) (rop : Op)
+    (he : (step t recv true op).events = e :: rest) (hr : react e.recv = some (rp, rop)) :
+    ∀ x ∈ (step (step t recv true op).tree rp true rop).events, x ∈ (stepR react (f + 1) t recv op).2 := by
+  intro x hx
+  rw [C09_reentrant_unfold react f t recv op e rest he]
+  have h1 : (nestedCall react f (step t recv true op).tree e.recv) = stepR react f (step t recv true op).tree rp rop := by
+    simp [nestedCall, hr]
+  rw [h1]
+  have := (stepR_outer_sublist react f (step t recv true op).tree rp rop).subset hx
+  simp [this]
+
+/-- FRESHNESS with re-entrant handlers, for every nesting bound: if the outer operation and the
+operations the handlers issue hand in values without stale memos, the tree is fresh afterwards. -/
+theorem C09_reentrant_fresh (react : React) (hreact : ∀ id rp rop, react id = some (rp, rop) → OpFresh rop) :
+    (f : Nat) → (t : T) → (recv : Path) → (op : Op) → Fresh t → OpFresh op → Fresh (stepR react f t recv op).1
+  | 0, t, recv, op, hf, hv => by rw [stepR_zero]; exact C09_fresh true t recv op hf hv
+  | f + 1, t, recv, op, hf, hv => by
+    rw [stepR_succ]
+    refine dispatchWith_fresh _ ?_ _ _ (C09_fresh true t recv op hf hv)
+    intro t' id ht'
+    unfold nestedCall
+    cases hr : react id with
+    | none => exact ht'
+    | some x =>
+      obtain ⟨rp, rop⟩ := x
+      exact C09_reentrant_fresh react hreact f t' rp rop ht' (hreact id rp rop hr)
 
 /-- A root dict whose cache is filled, holding one leaf. -/
 def exRoot : T :=
